@@ -32,7 +32,17 @@ META = {
              "character-level strings and 1-3 character edits of valid strings over a hostile alphabet "
              "(unicode letters/digits, NBSP, VT, EM SPACE, NEL, ZWSP, NUL, ...); (d) parse/compile of 8 "
              "strings before and after >= 300 other accepted strings (lru eviction); (e) observe by "
-             "one spelling / remove by another on a live object tree with a notifier census. "
+             "one spelling / remove by another on a live object tree with a notifier census; (f) what "
+             "the filter elements select: two generated classes per case whose traits (Int, Str, Float, "
+             "Bool, Any, List) carry metadata values of every truthiness class (undefined, None, truthy, "
+             "falsy: False 0 '' 0.0 () [] {} b'' 0j frozenset() and an object with __bool__ False; in a "
+             "fifth of the cases an object whose bool() raises), patterns prefix x filter (prefix: none, "
+             "link, list items, bracketed links, bracketed link+items; filter: +name, [+name], "
+             "[+n1,+n2], *), every tabled trait assigned, the traits that fired compared with the "
+             "documented selection computed from the declaration table (a value was given and is not "
+             "None), again after add_trait on targets and non-targets and after a new list item, then "
+             "removal by a respelling (census restored, silence); metadata names spelt __like_this__ "
+             "form their own stratum. "
              "distinct_nontrivial counts distinct signatures (rejected: the reference's reject reason; "
              "accepted: top-level width, bracket depth, leaf-count class, */+metadata/items present, "
              "bracket before a connector, connector kinds; respellings: part x variant kind x whether "
@@ -45,13 +55,23 @@ META = {
                   "random_accepted": 6000, "random_rejected": 12000,
                   "cache_rechecks": 400, "cache_evicted_reparse": 400,
                   "live_roundtrips": 500, "live_attached": 400, "reject_reasons_seen": 100,
-                  "distinct_meaning_pairs": 70000},
+                  "distinct_meaning_pairs": 70000,
+                  "meta_cases": 600, "meta_selected_fired": 12000, "meta_falsy_fired": 6000,
+                  "meta_boolraises_fired": 250, "meta_added_before_fired": 700,
+                  "meta_added_later_fired": 800, "meta_added_later_falsy_fired": 400,
+                  "meta_new_item_fired": 1200, "meta_unselected_silent": 20000,
+                  "meta_removed_silent": 600, "meta_dunder_cases": 30},
         "thorough": {"evaluations": 40000000, "accepted": 1500000, "rejected": 36000000,
                      "tok_strings": 37000000, "shape_cases": 500000, "variants_checked": 1000000,
                      "random_accepted": 200000, "random_rejected": 400000,
                      "cache_rechecks": 8000, "cache_evicted_reparse": 8000,
                      "live_roundtrips": 10000, "live_attached": 9000, "reject_reasons_seen": 100,
-                     "distinct_meaning_pairs": 600000},
+                     "distinct_meaning_pairs": 600000,
+                     "meta_cases": 10000, "meta_selected_fired": 200000, "meta_falsy_fired": 100000,
+                     "meta_boolraises_fired": 4000, "meta_added_before_fired": 11000,
+                     "meta_added_later_fired": 13000, "meta_added_later_falsy_fired": 6500,
+                     "meta_new_item_fired": 20000, "meta_unselected_silent": 330000,
+                     "meta_removed_silent": 10000, "meta_dunder_cases": 300},
     },
     "exhaustive_parts": ("all token strings over {a,b,items,+,*,.,:,',',[,]} of length 1..6 (quick) / "
                          "1..8 (thorough): acceptance, exception class and denotation checked on every "
@@ -65,6 +85,9 @@ META = {
                     "optional); multiplicities of identical paths are not part of it",
                     "strings stay far below the interpreter recursion limit (<= ~80 elements); the "
                     "translator recurses once per series element",
+                    "'+name' selects the traits for which metadata `name` was given and is not None "
+                    "(manual table; docstrings of metadata() and MetadataFilter); '*' selects every "
+                    "trait; truthiness of the metadata value plays no role",
                     "graph nodes are read through their public attributes (name, notify, optional, "
                     "filter.metadata_name) and classified by class name"],
     "case_timeout": 900,
@@ -1427,8 +1450,410 @@ def part_live(ctx, ck):
             ctx.end()
 
 
+# ===========================================================================
+# Workload (f): what the filter elements (+metadata, *) select on live classes
+# ===========================================================================
+# The manual: "+metadata_name  Matches any trait on the object that has metadata
+# metadata_name"; metadata(): "traits where the given metadata is not None".  The
+# reference meaning is computed from the declaration table kept here (a metadata
+# value was given and is not None) - never by asking traits.
+class _Falsy:
+    def __bool__(self):
+        return False
+
+    def __repr__(self):
+        return "<falsy object>"
+
+
+class _Truthy:
+    def __repr__(self):
+        return "<truthy object>"
+
+
+class _BoolRaises:
+    def __bool__(self):
+        raise RuntimeError("this metadata value has no truth value")
+
+    def __repr__(self):
+        return "<object whose bool() raises>"
+
+
+UNDEF = ("<undefined>",)
+META_VALUES = {
+    "undefined": [UNDEF],
+    "none": [None],
+    "truthy": [True, 1, "yes", (0,), 2.5, _Truthy(), [0], -1],
+    "falsy": [False, 0, "", 0.0, (), [], {}, b"", 0j, _Falsy(), frozenset()],
+    "bool-raises": [_BoolRaises()],
+}
+_META_CLASSES = ["undefined", "none", "truthy", "falsy", "falsy", "falsy", "bool-raises", "truthy"]
+
+
+def _pick_meta(rng, hostile):
+    cls = rng.choice(_META_CLASSES)
+    if cls == "bool-raises" and not hostile:
+        cls = "falsy"
+    return cls, rng.choice(META_VALUES[cls])
+
+
+def _mk_trait(kind, md):
+    from traits.api import Float, Bool, Any
+    if kind == "Int":
+        return Int(**md)
+    if kind == "Str":
+        return Str(**md)
+    if kind == "Float":
+        return Float(**md)
+    if kind == "Bool":
+        return Bool(**md)
+    if kind == "Any":
+        return Any(**md)
+    return List(Int, **md)
+
+
+_META_KINDS = ["Int", "Str", "Float", "Bool", "Any", "ListInt", "Int", "Int"]
+
+
+def _bump(kind, old, tick):
+    if kind == "Int":
+        return old + 1
+    if kind == "Str":
+        return old + "x"
+    if kind == "Float":
+        return old + 1.5
+    if kind == "Bool":
+        return not old
+    if kind == "Any":
+        return ("any", tick)
+    return list(old) + [tick]
+
+
+class MetaWorld:
+    """Two generated classes (a root with links, a leaf), their declaration
+    tables and the live objects."""
+
+    def __init__(self, rng, mnames, hostile):
+        self.rng = rng
+        self.mnames = mnames
+        self.hostile = hostile   # metadata values whose bool() raises occur only in these worlds
+        self.tick = 0
+        self.table = {}          # serial -> {trait name: (kind, {mname: (class, value)}, flavour)}
+        self.objects = []        # serial -> object
+        self.serial = {}
+        self.leaf_decl = self._decl(rng.randint(4, 8))
+        self.root_decl = self._decl(rng.randint(3, 6))
+        leaf_ns = {n: _mk_trait(k, self._md(m)) for n, (k, m) in self.leaf_decl.items()}
+        self.Leaf = type("Leaf", (HasTraits,), leaf_ns)
+        root_ns = {n: _mk_trait(k, self._md(m)) for n, (k, m) in self.root_decl.items()}
+        root_ns["child"] = Instance(HasTraits)
+        root_ns["other"] = Instance(HasTraits)
+        root_ns["kids"] = List(Instance(HasTraits))
+        self.Root = type("Root", (HasTraits,), root_ns)
+        self.root = self._new(self.Root, self.root_decl, "declared")
+        self.root.child = self.child = self.new_leaf("declared")
+        self.root.other = self.other = self.new_leaf("declared")
+        self.kids = [self.new_leaf("declared") for _ in range(rng.randint(1, 2))]
+        self.root.kids = list(self.kids)
+        self.containers = [self.root.kids]
+
+    def _decl(self, n):
+        out = {}
+        for i in range(n):
+            out["t%d" % i] = (self.rng.choice(_META_KINDS), {m: _pick_meta(self.rng, self.hostile) for m in self.mnames})
+        return out
+
+    @staticmethod
+    def _md(meta):
+        return {m: v for m, (c, v) in meta.items() if v is not UNDEF}
+
+    def _new(self, cls, decl, flavour):
+        o = cls()
+        s = len(self.objects)
+        self.objects.append(o)
+        self.serial[id(o)] = s
+        self.table[s] = {n: (k, m, flavour) for n, (k, m) in decl.items()}
+        for n in decl:
+            getattr(o, n)                      # materialise defaults before observing
+        return o
+
+    def new_leaf(self, flavour):
+        return self._new(self.Leaf, self.leaf_decl, flavour)
+
+    def add_trait(self, o, flavour):
+        s = self.serial[id(o)]
+        name = "dyn%d" % len(self.table[s])
+        meta = {m: _pick_meta(self.rng, self.hostile) for m in self.mnames}
+        kind = self.rng.choice(["Int", "Str", "Int"])
+        o.add_trait(name, _mk_trait(kind, self._md(meta)))
+        getattr(o, name)
+        self.table[s][name] = (kind, meta, flavour)
+
+    def mutate_all(self):
+        """Assign a new value to every tabled trait of every object."""
+        for s, o in enumerate(self.objects):
+            for n, (kind, meta, flavour) in self.table[s].items():
+                self.tick += 1
+                setattr(o, n, _bump(kind, getattr(o, n), self.tick))
+
+    def census(self, only=None):
+        """{(serial, trait name | None): notifier count > 0}, read-only."""
+        out = {}
+        for s, o in enumerate(self.objects):
+            if only is not None and o is not only:
+                continue
+            k = len(o._notifiers(False) or ())
+            if k:
+                out[(s, None)] = k
+            for name in o.trait_names():
+                t = o._trait(name, 0)
+                if t is not None:
+                    k = len(t._notifiers(False) or ())
+                    if k:
+                        out[(s, name)] = k
+        if only is None:
+            for i, c in enumerate(self.containers):
+                out[("container", i)] = len(c.notifiers)
+        return out
+
+
+# prefixes: (series items before the filter element, function world -> target objects)
+def _meta_prefixes(rng):
+    c1, c2, c3 = rng.choice(".:"), rng.choice(".:"), rng.choice(".:")
+    return [
+        ("root", (), lambda w: [w.root]),
+        ("link", ((("n", "child"), c1),), lambda w: [w.child]),
+        ("list-items", ((("n", "kids"), c1), (("i",), c2)), lambda w: list(w.root.kids)),
+        ("bracket-links", ((("g", (((("n", "child"), None),), ((("n", "other"), None),))), c1),),
+         lambda w: [w.child, w.other]),
+        ("bracket-mixed", ((("g", (((("n", "child"), None),),
+                                   ((("n", "kids"), c2), (("i",), None)))), c3),),
+         lambda w: [w.child] + list(w.root.kids)),
+    ]
+
+
+def _meta_filter(rng, mnames, allow_star):
+    """(element, set of metadata names it selects on | None for '*')"""
+    r = rng.random()
+    if allow_star and r < 0.15:
+        return ("*",), None
+    if r < 0.55 or len(set(mnames)) < 2:
+        m = rng.choice(mnames)
+        e = ("m", m)
+        if rng.random() < 0.25:
+            e = ("g", (((e, None),),))
+        return e, {m}
+    ms = rng.sample(sorted(set(mnames)), 2)
+    return ("g", tuple((((("m", m), None),)) for m in ms)), set(ms)
+
+
+def _selected(meta, names):
+    """The documented meaning: some named metadata was given and is not None."""
+    if names is None:
+        return True, "any"
+    hit = [meta[m][0] for m in sorted(names) if m in meta and meta[m][1] is not UNDEF and meta[m][1] is not None]
+    if hit:
+        order = ["falsy", "bool-raises", "truthy"]
+        return True, sorted(hit, key=order.index)[0]
+    miss = [meta[m][0] if m in meta else "undefined" for m in sorted(names)]
+    return False, "none" if "none" in miss else "undefined"
+
+
+def meta_case(ctx, ck, rng, stratum):
+    n = ck.n
+    if stratum == "dunder":
+        mnames = [rng.choice(["__ext__", "__x__", "__flag__"])]
+        pool = mnames
+    else:
+        mnames = ["flag", "tag"]
+        pool = ["flag", "tag", "flag", "tag", "nope"]
+    w = MetaWorld(rng, mnames, rng.random() < 0.2)
+    prefixes = _meta_prefixes(rng)
+    alts = []        # (series, targets fn, names, prefix label)
+    for _ in range(rng.choice([1, 1, 2])):
+        label, items, targets = rng.choice(prefixes)
+        e, names = _meta_filter(rng, pool, stratum != "dunder")
+        alts.append((tuple(items) + ((e, None),), targets, names, label))
+    ast = tuple(a[0] for a in alts)
+    if has_dup_siblings(ast):
+        return
+    s1 = render(ast) if rng.random() < 0.5 else render_ws(ast_tokens(ast), rng, "ws-mixed")
+    base = ck.check(s1, "meta")
+    if base is None:
+        return
+    vkind = rng.choice(WS_KIND_NAMES + ["ws-edges"] + BR_KINDS)
+    s2 = None
+    if vkind.startswith("br-"):
+        v = bracket_variant(ast, rng, vkind)
+        if v is not None:
+            s2 = render(v)
+        else:
+            vkind = "ws-mixed"
+    if s2 is None:
+        s2 = render_ws(ast_tokens(ast), rng, vkind)
+    if not ck.check_variant(base, vkind, s2, "meta-var"):
+        return
+    # instance traits that exist before the handler is registered
+    for o in rng.sample(w.objects, 2):
+        w.add_trait(o, "added-before")
+    events = []
+
+    def handler(event):
+        if type(event).__name__ == "TraitChangeEvent":
+            events.append((w.serial.get(id(event.object)), event.name))
+    c0 = w.census()
+    n["evaluations"] += 1
+    n["meta_cases" if stratum == "plain" else "meta_dunder_cases"] += 1
+    try:
+        w.root.observe(handler, s1)
+    except Exception as e:  # noqa: BLE001
+        ctx.violation("metadata-meaning/%sobserve-raises/%s" % ("dunder-name/" if stratum == "dunder" else "",
+                                                               type(e).__name__),
+                      "observe(root, %r) raised %r on objects that fit the pattern" % (s1, e),
+                      {"pattern": s1, "metadata_names": mnames,
+                       "leaf": {k: (v[0], {m: repr(x[1]) for m, x in v[1].items()})
+                                for k, v in w.leaf_decl.items()}})
+        return
+
+    def guarded(op, fn, *args):
+        """operations on observed objects must not raise because of the filter"""
+        try:
+            fn(*args)
+            return True
+        except Exception as e:  # noqa: BLE001
+            ctx.violation("metadata-meaning/%s-raises/%s" % (op, type(e).__name__),
+                          "with observe(root, %r) registered, %s raised %r" % (s1, op, e),
+                          {"pattern": s1, "operation": op})
+            return False
+
+    def judge(phase):
+        """mutate everything; compare the traits that fired with the documented selection"""
+        del events[:]
+        if not guarded("assignment", w.mutate_all):
+            return False
+        fired = set(events)
+        expected = {}
+        for series, targets, names, label in alts:
+            for o in targets(w):
+                s = w.serial[id(o)]
+                for tname, (kind, meta, flavour) in w.table[s].items():
+                    ok, cls = _selected(meta, names)
+                    if ok:
+                        expected[(s, tname)] = (cls, flavour, label, names is None)
+        problems = []
+        for key in sorted(set(expected) - fired):
+            cls, flavour, label, star = expected[key]
+            problems.append(("%s/missing/%s/%s" % ("anytrait-meaning" if star else "metadata-meaning",
+                                                   cls, flavour), key, label))
+        for key in sorted(k for k in fired - set(expected) if k[0] is not None and k[1] in w.table[k[0]]):
+            kind, meta, flavour = w.table[key[0]][key[1]]
+            names = set().union(*[a[2] or set() for a in alts])
+            cls = _selected(meta, names)[1]
+            problems.append(("metadata-meaning/extra/%s/%s" % (cls, flavour), key, "-"))
+        for key, (cls, flavour, label, star) in expected.items():
+            if key in fired:
+                n["meta_selected_fired"] += 1
+                if cls == "falsy":
+                    n["meta_falsy_fired"] += 1
+                elif cls == "bool-raises":
+                    n["meta_boolraises_fired"] += 1
+                if flavour == "added-later":
+                    n["meta_added_later_fired"] += 1
+                    if cls in ("falsy", "bool-raises"):
+                        n["meta_added_later_falsy_fired"] += 1
+                elif flavour == "item-added-later":
+                    n["meta_new_item_fired"] += 1
+                elif flavour == "added-before":
+                    n["meta_added_before_fired"] += 1
+                ck.sig("meta", phase, cls, flavour, label, star)
+        for s, tab in w.table.items():
+            for tname in tab:
+                if (s, tname) not in expected and (s, tname) not in fired:
+                    n["meta_unselected_silent"] += 1
+        if problems:
+            key, where, label = sorted(problems)[0]
+            s, tname = where
+            kind, meta, flavour = w.table[s][tname]
+            ctx.violation(key, "observe(root, %r): trait %r (%s, metadata %s) of object #%d (%s) %s, "
+                          "documented meaning of the filter says otherwise [%s]"
+                          % (s1, tname, kind, {m: repr(x[1]) for m, x in meta.items()}, s, label,
+                             "did not fire" if "/missing/" in key else "fired", phase),
+                          {"pattern": s1, "trait": tname, "kind": kind, "flavour": flavour,
+                           "metadata": {m: repr(x[1]) for m, x in meta.items()}, "phase": phase,
+                           "all_problems": [p[0] for p in sorted(problems)][:12]})
+            return False
+        return True
+
+    if not judge("declared"):
+        return
+    # traits added after registration, on targets and non-targets alike
+    for o in rng.sample(w.objects, min(3, len(w.objects))):
+        for _ in range(rng.choice([1, 2])):
+            if not guarded("add_trait", w.add_trait, o, "added-later"):
+                return
+    if any(label in ("list-items", "bracket-mixed") for _, _, _, label in alts) or rng.random() < 0.3:
+        leaf = w.new_leaf("item-added-later")
+        c0.update(w.census(only=leaf))        # its population before it joins the pattern
+        if not guarded("list-append", w.root.kids.append, leaf):
+            return
+    if not judge("after-additions"):
+        return
+    try:
+        w.root.observe(handler, s2, remove=True)
+    except Exception as e:  # noqa: BLE001
+        ctx.violation("metadata-meaning/remove-failed/%s" % type(e).__name__,
+                      "observe(root, %r) then observe(root, %r, remove=True) raised %r" % (s1, s2, e),
+                      {"registered": s1, "removed": s2})
+        return
+    c2 = w.census()
+    if c2 != c0:
+        left = sorted((repr(k), v) for k, v in c2.items() if c0.get(k) != v)
+        ctx.violation("metadata-meaning/census-not-restored",
+                      "observe(root, %r), add traits/items, remove by %r: notifiers left %r"
+                      % (s1, s2, left[:6]), {"registered": s1, "removed": s2, "left": left[:10]})
+        return
+    del events[:]
+    if not guarded("assignment-after-removal", w.mutate_all):
+        return
+    if events:
+        ctx.violation("metadata-meaning/handler-still-called",
+                      "handler fired after removal by %r of %r" % (s2, s1),
+                      {"registered": s1, "removed": s2, "events": events[:6]})
+        return
+    n["meta_removed_silent"] += 1
+    ck.sample("meta", {"part": "filter-meaning", "pattern": s1, "removed_by": s2,
+                       "leaf_metadata": {k: {m: repr(x[1]) for m, x in v[1].items()}
+                                         for k, v in list(w.leaf_decl.items())[:4]}})
+
+
+def part_meta(ctx, ck):
+    ncases = ctx.scale(1920, 32000)
+    for c in range(ncases):
+        if not ctx.mine(c):
+            continue
+        if not ctx.begin("meta:%d" % c):
+            continue
+        try:
+            meta_case(ctx, ck, ctx.rng("meta", c), "plain")
+        finally:
+            ck.flush()
+            ctx.end()
+    # metadata names spelt __like_this__: their own stratum (own key)
+    ncases = ctx.scale(96, 960)
+    for c in range(ncases):
+        if not ctx.mine(c):
+            continue
+        if not ctx.begin("metadunder:%d" % c):
+            continue
+        try:
+            meta_case(ctx, ck, ctx.rng("metadunder", c), "dunder")
+        finally:
+            ck.flush()
+            ctx.end()
+
+
 def run(ctx):
     ck = Checker(ctx)
+    part_meta(ctx, ck)
     part_live(ctx, ck)
     part_cache(ctx, ck)
     part_shapes(ctx, ck)
